@@ -5,7 +5,7 @@
    Only statements; every proof is `exact <lemma>`. *)
 From Coq Require Import List ZArith QArith Qcanon Bool Arith.
 From Dimod Require Import Base.Util Model.Poly Model.Comb Gen.Gen_Gates Model.Gates
-  Proofs.GatesFacts Props.Comb Gen.Gen_Combinations Proofs.CombRule Gen.Gen_Graph Proofs.GraphConstants Model.Knap Proofs.KnapFacts Model.QKnap Gen.Gen_Knap Proofs.KnapGen Model.MultCircuit Proofs.MultFacts Proofs.MultArith Proofs.MultAttain Proofs.MultAll Model.Qap Proofs.QapFacts Model.Magic Proofs.MagicFacts Model.Sat Proofs.SatFacts Gen.Gen_Sat Proofs.SatGen Gen.Gen_Shapes Proofs.ShapeLocks.
+  Proofs.GatesFacts Props.Comb Gen.Gen_Combinations Proofs.CombRule Gen.Gen_Graph Proofs.GraphConstants Model.Knap Proofs.KnapFacts Model.QKnap Gen.Gen_Knap Proofs.KnapGen Model.MultCircuit Proofs.MultFacts Proofs.MultArith Proofs.MultAttain Proofs.MultAll Model.Qap Proofs.QapFacts Model.Magic Proofs.MagicFacts Model.Sat Proofs.SatFacts Gen.Gen_Sat Proofs.SatGen Gen.Gen_Shapes Proofs.ShapeLocks Model.RandomDraws Gen.Gen_RandomDraws Proofs.RandomDrawsFacts.
 Import ListNotations.
 
 (* energy 0 on exactly the rows of the truth table, >= 1 on every other row (strength 1) *)
@@ -411,6 +411,44 @@ Theorem C17_shape_literals_unchanged :
   anti_crossing_loops_literals = [(2)%Z; (8)%Z; (4)%Z; (2)%Z; (1)%Z; (1)%Z; (1)%Z; (1)%Z; (1)%Z; (1)%Z; (2)%Z; (1)%Z; (3)%Z; (1)%Z; (1)%Z; (1)%Z; (2)%Z; (1)%Z; (3)%Z; (1)%Z; (0)%Z; (0)%Z; (0)%Z].
 Proof. exact shape_literals_unchanged. Qed.
 Print Assumptions C17_shape_literals_unchanged.
+
+(* ---------- random-model generators: the draws TRANSLATED from dimod/generators/random.py (translators/random_draws.py,
+   Gen/Gen_RandomDraws.v; numpy's randint(lo, hi) = an integer lo <= x < hi, uniform(lo, hi) in [lo, hi]: trusted) ---------- *)
+(* randint: each of the three draws - linear biases, quadratic biases and the OFFSET - returns integers of the
+   inclusive declared range only, for all low / high; and every integer of the range can be drawn *)
+Theorem C17_randint_draws_in_range :
+  forall low high d x,
+    In d (triple_list gen_randint_draws) -> in_draw2 low high d x -> (low <= x <= high)%Z.
+Proof. exact randint_draws_in_range. Qed.
+Print Assumptions C17_randint_draws_in_range.
+
+Theorem C17_randint_draws_cover :
+  forall low high d x,
+    In d (triple_list gen_randint_draws) -> (low <= x <= high)%Z -> in_draw2 low high d x.
+Proof. exact randint_draws_cover. Qed.
+Print Assumptions C17_randint_draws_cover.
+
+(* uniform: each of the three draws is uniform(low, high) with exactly the declared bounds *)
+Theorem C17_uniform_draws_bounds :
+  forall d, In d (triple_list gen_uniform_draws) -> d = DUniform (1, 0, 0)%Z (0, 1, 0)%Z.
+Proof. exact uniform_draws_bounds. Qed.
+Print Assumptions C17_uniform_draws_bounds.
+
+(* ran_r / power_r: zero linear biases and offset; the couplings are drawn from exactly the non-zero integers of
+   absolute value <= r, for every r *)
+Theorem C17_ran_r_draws :
+  forall r x, gen_ran_r_draws = (DZero, DChoice, DZero) /\ (in_rvals r gen_ran_r_rvals x <-> pm_range r x).
+Proof. exact ran_r_draws. Qed.
+Print Assumptions C17_ran_r_draws.
+
+Theorem C17_power_r_draws :
+  forall r x, gen_power_r_draws = (DZero, DChoice, DZero) /\ (in_rvals r gen_power_r_rvals x <-> pm_range r x).
+Proof. exact power_r_draws. Qed.
+Print Assumptions C17_power_r_draws.
+
+Theorem C17_pm_range_nonzero : forall r x, pm_range r x -> x <> 0%Z /\ (Z.abs x <= r)%Z.
+Proof. exact pm_range_nonzero. Qed.
+Print Assumptions C17_pm_range_nonzero.
 
 Example C17_ex_fulladder : fulladder_energy [true; true; false; false; true] = 0%Z /\
                            fulladder_energy [true; true; false; true; true] = 1%Z.
